@@ -72,6 +72,13 @@ pub fn run(out: &mut Out, tier: &str, seed: u64) {
     let mut names = Ser::new();
     names.name("_");
     let _rng = Rng::new(seed ^ 0xC01);
+    // replay mode: a single source text
+    if let Ok(path) = std::env::var("VERIF_ONLY_FILE") {
+        if let Ok(src) = std::fs::read_to_string(&path) {
+            check_source(out, &mut names, &src, "replay");
+        }
+        return;
+    }
     // corpus first
     if let Ok(rd) = std::fs::read_dir("/verif/corpus") {
         let mut files: Vec<_> = rd.filter_map(|e| e.ok()).map(|e| e.path()).filter(|p| p.extension().map_or(false, |x| x == "g")).collect();
